@@ -61,6 +61,17 @@ def run(ctx):
                 rep.violation('NO-CAST', '%s|cast-to-%s' % (fn.key, rv['to']), 'integer `as` cast on the precision-to-scale slice (must be checked conversions): to %s' % rv['to'], fn.where(st['line']))
     if ncast == 0:
         rep.ok('NO-CAST', 'with_precision_round:no-int-cast', 'no integer `as` cast in with_precision_round or its closures (%d bodies)' % len(bodies))
+    # scale bookkeeping of with_prec: dropping `diff` digits lowers the scale by diff, padding raises it by diff
+    wpf = F.fns.get('BigDecimal::with_prec')
+    if wpf is not None:
+        v, msgs, paths = scale.analyse(wpf, 'dims', scale_params=(2,))
+        key = wpf.key + ':scale-bookkeeping'
+        if v == 'ok':
+            rep.ok('R-SCALE', key, 'all %d paths: the quotient by 10^diff is labelled scale - diff, the padded integer scale + diff, with diff >= 0 established by the digits/precision comparison' % paths, wpf.where())
+        elif v == 'violation':
+            rep.violation('R-SCALE', key, msgs[0][:400], wpf.where())
+        else:
+            rep.undecided('R-SCALE', key, (msgs or ['not decided'])[0][:200], wpf.where())
     # with_prec's tie rule is fixed by its specification (ties away from zero): it must not come from the
     # configurable default mode, and a mode constant it hands to a rounding routine must be HalfUp
     wp = F.fns.get('BigDecimal::with_prec')
